@@ -323,6 +323,17 @@ func varySource(r io.Reader, needSeek bool) (io.Reader, func()) {
 		return plainReader{br}, func() {}
 	case k == 4 && !needSeek:
 		return bufio.NewReaderSize(br, 16), func() {}
+	case k == 6 && !needSeek:
+		// the read end of a pipe (what os.Stdin is under `cat file | tool`): an *os.File, so it has a Seek
+		// method, but seeking fails
+		pr, pw, err := os.Pipe()
+		if err != nil {
+			return r, func() {}
+		}
+		b := make([]byte, br.Len())
+		_, _ = br.ReadAt(b, 0)
+		go func() { _, _ = pw.Write(b); pw.Close() }()
+		return pr, func() { pr.Close() }
 	case k == 5:
 		f, err := os.CreateTemp(os.Getenv("VERIF_SCRATCH_DIR"), "source-*.mcap")
 		if err != nil {
